@@ -8,6 +8,7 @@ import (
 	"github.com/go-kid/ioc/container"
 	"github.com/go-kid/ioc/container/processors"
 	"github.com/go-kid/ioc/container/support"
+	"github.com/go-kid/ioc/syslog"
 	"github.com/go-kid/ioc/zzverif/nd"
 	modela "github.com/go-kid/ioc/zzverif/pa/model"
 	modelb "github.com/go-kid/ioc/zzverif/pb/model"
@@ -565,6 +566,12 @@ func (p *vInnerN) Naming() string { return "nested" }
 
 // registration: two distinct components can never be registered under one name
 func VerifC07Register() {
+	if nd.Param("LOGLEVEL", 0) == 1 {
+		// the application may have lowered the log verbosity: rejecting a duplicate must not depend on it
+		syslog.Level([]syslog.Lv{syslog.LvFatal, syslog.LvPanic, syslog.LvInfo}[nd.Choose(3)])
+		defer syslog.Level(syslog.LvInfo)
+		nd.Cover("log level changed before registration")
+	}
 	switch nd.Choose(4) {
 	case 3:
 		// two types that print the same (model.Svc) but live in different packages have different default names
